@@ -3,5 +3,6 @@
    nat, positive, Z stay Coq datatypes. *)
 Require Extraction.
 Require Import ExtrOcamlBasic.
-From RV Require Import Val Syntax Rho Offline ExtZ Run.
-Extraction "model.ml" Run.pk_std Run.run_off Run.run_rho Run.run_exact.
+From RV Require Import Val Syntax Rho Offline Online ExtZ Run.
+Extraction "model.ml" Run.pk_std Run.run_off Run.run_rho Run.run_exact
+  Run.run_on Run.run_on_supported Run.run_on_reset.
